@@ -93,7 +93,7 @@ def pipeline(ctx, want):
         ctx.tlc("Tracker.tla", "Tracker_mc_thorough.cfg", workers=16, timeout=6000, heap="16g")
     ctx.exhaustive = False
     # GEN
-    per = 60 if ctx.quick() else 1200
+    per = 60 if ctx.quick() else 700
     scripts = []
     from concurrent.futures import ThreadPoolExecutor
 
